@@ -128,8 +128,8 @@ func VerifH04() {
 	nd.Bound("H04.steps", k)
 	concreteCounter = true // the counter's role across restarts is C05's subject
 	verifenv.TornWrites = true
-	w := newWorld(stdConfig(), []string{"a", "b"})
-	w.vlen = 2 // two-byte contents: a crash can tear them
+	w := newWorld(stdConfig(), []string{"a", "ключ"}) // the second key is not ASCII: records carry keys as bytes
+	w.vlen = 2                                        // two-byte contents: a crash can tear them
 	a := alpha{tx: true, gc: true, drain: true, maxTx: 1, levels: []model.TxIsoLevel{fs_db.IsoLevelReadCommitted, fs_db.IsoLevelSerializable}}
 	w.stepKeys = []string{"a"} // the workload writes key a; key b is written by the prepared transaction only
 	// a pre-state with history: optionally a committed value, optionally a transaction that has
@@ -148,7 +148,7 @@ func VerifH04() {
 	case 2:
 		t := w.begin(a.levels[nd.Choice("level", 2)])
 		nd.Assert(w.doSet(t, "a", w.freshVal(), 0) == nil, "H04.pre-tx")
-		nd.Assert(w.doSet(t, "b", w.freshVal(), 0) == nil, "H04.pre-tx")
+		nd.Assert(w.doSet(t, "ключ", w.freshVal(), 0) == nil, "H04.pre-tx")
 	}
 	// the workload may run in the process that built the pre-state, or in a later one
 	if len(w.openTxs()) == 0 && nd.Choice("workload-in-a-later-process", 2) == 1 {
